@@ -364,6 +364,16 @@ fn tz(zone: &str) -> TimeZone {
     }
     TimeZone::IanaIdentifier(zone.to_string())
 }
+/// Minutes east of Greenwich of a zone spelled `±HH:MM`.
+fn fixed_offset_minutes(zone: &str) -> Option<i64> {
+    let b = zone.as_bytes();
+    if b.len() != 6 || b[3] != b':' || !(b[0] == b'+' || b[0] == b'-') {
+        return None;
+    }
+    let h: i64 = zone[1..3].parse().ok()?;
+    let m: i64 = zone[4..6].parse().ok()?;
+    Some(if b[0] == b'-' { -(h * 60 + m) } else { h * 60 + m })
+}
 fn cal(i: u8) -> Calendar {
     Calendar::from_str(CALS[i as usize % CALS.len()]).unwrap_or_default()
 }
@@ -867,7 +877,15 @@ fn exec_inner<P: TimeZoneProvider>(op: &Op, mode: Mode<'_, P>) -> Outcome {
                 i.to_ixdtf_string_with_provider(t, to_string_options(op.sel), p))
         }
         "pdt.to_zoned_date_time" => {
-            let (y, mo, d, h, mi, s, ms, us, n) = civil(op.ns);
+            // The receiver is the UTC reading of the instant or, for a
+            // fixed-offset zone half of the time, its *local* reading in that
+            // zone (which, next to the limits of the instant range, lies in
+            // the extra day that only plain date-times can represent).
+            let local = match fixed_offset_minutes(&op.zone) {
+                Some(m) if (op.sel >> 2) % 2 == 1 => op.ns + m as i128 * 60_000_000_000,
+                _ => op.ns,
+            };
+            let (y, mo, d, h, mi, s, ms, us, n) = civil(local);
             let pdt = match PlainDateTime::try_new(y, mo, d, h, mi, s, ms, us, n, cal(op.cal)) {
                 Ok(x) => x,
                 Err(e) => return out::<()>(Err(e)),
